@@ -1,6 +1,336 @@
-//! C17 — not built yet.
+//! C17 — the C API behaves exactly like the Rust API on the same values.
+//!
+//! A case is a *history* of C calls from an empty pool: `<extern "C" fn name> <args>` repeated
+//! (tokens; see `T`).  For every call three answers are produced in the same canonical text:
+//!   * the real `extern "C"` function called through its Rust signature on real handles,
+//!   * the reference ("shadow"): the corresponding Rust API operation on plain `Value`s
+//!     (Vec / BTreeMap / Grid operations, `to_zinc_string`, `serde_json`, `Filter`, …),
+//!   * the Lean model `cstep` (request `C17 hist …`; results of library code that the model does not
+//!     contain — unit lookup, chrono, codecs, filters — are appended to the call as `ext` tokens).
+//! Oracles on the real code: C answer = Rust answer for every call; after a failing call the pool
+//! is unchanged (VX of every pooled value before/after) and the error message is retrievable;
+//! C pool = Rust pool after every call.  Coverage: every function of the call table is counted;
+//! the table itself is compared with the translated inventory (`C17 inventory`).
+
 use crate::ctx::{CaseOut, Ctx};
+use crate::gen::{self, Cfg};
+use crate::rng::Rng;
+use crate::vx;
+use chrono::{NaiveDateTime, Offset, TimeZone, Utc};
+use libhaystack::c_api::ResultType;
+use libhaystack::c_api::{
+    coord as ccoord, date as cdate, datetime as cdt, dict as cdict, err as cerr, filter as cfilter, grid as cgrid,
+    json as cjson, list as clist, number as cnum, reference as cref, str as cstr, symbol as csym, time as ctime,
+    uri as curi, value as cval, xstr as cxstr, zinc as czinc,
+};
+use libhaystack::encoding::zinc::decode::from_str as zinc_from_str;
+use libhaystack::encoding::zinc::encode::to_zinc_string;
+use libhaystack::filter::{Filter, Filtered, ListFiltered};
+use libhaystack::units::get_unit;
+use libhaystack::val::*;
+use std::collections::{BTreeMap, BTreeSet};
+use std::ffi::{CStr, CString};
+use std::os::raw::c_char;
+use std::sync::Mutex;
 
-pub fn exec(_label: &str, _input: &str, _out: &mut CaseOut) {}
+/// argument classes
+#[derive(Clone, Copy, PartialEq, Eq, Debug)]
+pub enum T {
+    V,   // *const/*mut Value      `@k` | `@-`
+    F,   // *const/*mut Filter     `%k` | `%-`
+    SP,  // *mut c_char (owned string returned earlier)  `$k` | `$-`
+    C,   // *const c_char          hex | `~` | `!`
+    O,   // *mut *const Value      `1` | `0`
+    B,   // bool                   `1` | `0`
+    U32, // u32
+    I32, // i32
+    US,  // usize
+    X,   // f64                    bits + hex(Display)
+}
+use T::*;
 
-pub fn generate(_ctx: &mut Ctx) {}
+/// The harness's call table: every `extern "C"` function with its parameter classes.
+pub const FUNCS: &[(&str, &[T])] = &[
+    ("haystack_value_init", &[]),
+    ("haystack_value_destroy", &[V]),
+    ("haystack_value_make_marker", &[]),
+    ("haystack_value_make_na", &[]),
+    ("haystack_value_make_remove", &[]),
+    ("haystack_value_make_list", &[]),
+    ("haystack_value_make_dict", &[]),
+    ("haystack_value_make_grid", &[]),
+    ("haystack_value_make_bool", &[B]),
+    ("haystack_value_make_number", &[X]),
+    ("haystack_value_make_number_with_unit", &[X, C]),
+    ("haystack_value_make_coord", &[X, X]),
+    ("haystack_value_make_str", &[C]),
+    ("haystack_value_make_ref", &[C]),
+    ("haystack_value_make_uri", &[C]),
+    ("haystack_value_make_symbol", &[C]),
+    ("haystack_value_make_ref_with_dis", &[C, C]),
+    ("haystack_value_make_xstr", &[C, C]),
+    ("haystack_value_make_time", &[U32, U32, U32]),
+    ("haystack_value_make_time_millis", &[U32, U32, U32, U32]),
+    ("haystack_value_make_date", &[I32, U32, U32]),
+    ("haystack_value_make_utc_datetime", &[V, V]),
+    ("haystack_value_make_tz_datetime", &[V, V, C]),
+    ("haystack_value_is_null", &[V]),
+    ("haystack_value_is_marker", &[V]),
+    ("haystack_value_is_na", &[V]),
+    ("haystack_value_is_remove", &[V]),
+    ("haystack_value_is_bool", &[V]),
+    ("haystack_value_is_number", &[V]),
+    ("haystack_value_is_coord", &[V]),
+    ("haystack_value_is_str", &[V]),
+    ("haystack_value_is_ref", &[V]),
+    ("haystack_value_is_uri", &[V]),
+    ("haystack_value_is_symbol", &[V]),
+    ("haystack_value_is_xstr", &[V]),
+    ("haystack_value_is_time", &[V]),
+    ("haystack_value_is_date", &[V]),
+    ("haystack_value_is_datetime", &[V]),
+    ("haystack_value_is_list", &[V]),
+    ("haystack_value_is_dict", &[V]),
+    ("haystack_value_is_grid", &[V]),
+    ("haystack_value_get_number_value", &[V]),
+    ("haystack_value_number_has_unit", &[V]),
+    ("haystack_value_get_number_unit", &[V]),
+    ("haystack_value_get_str_len", &[V]),
+    ("haystack_value_get_str_value", &[V]),
+    ("haystack_value_get_ref_value_len", &[V]),
+    ("haystack_value_get_ref_value", &[V]),
+    ("haystack_value_get_ref_dis", &[V]),
+    ("haystack_value_get_symbol_value_len", &[V]),
+    ("haystack_value_get_symbol_value", &[V]),
+    ("haystack_value_get_uri_value_len", &[V]),
+    ("haystack_value_get_uri_value", &[V]),
+    ("haystack_value_get_xstr_type", &[V]),
+    ("haystack_value_get_xstr_value", &[V]),
+    ("haystack_value_get_coord_lat", &[V]),
+    ("haystack_value_get_coord_long", &[V]),
+    ("haystack_value_get_date_year", &[V]),
+    ("haystack_value_get_date_month", &[V]),
+    ("haystack_value_get_date_day", &[V]),
+    ("haystack_value_get_time_hour", &[V]),
+    ("haystack_value_get_time_minutes", &[V]),
+    ("haystack_value_get_time_seconds", &[V]),
+    ("haystack_value_get_time_millis", &[V]),
+    ("haystack_value_get_datetime_timezone", &[V]),
+    ("haystack_value_get_datetime_date", &[V, B, V]),
+    ("haystack_value_get_datetime_time", &[V, B, V]),
+    ("haystack_value_get_list_len", &[V]),
+    ("haystack_value_push_list_entry", &[V, V]),
+    ("haystack_value_get_list_entry_at", &[V, US, O]),
+    ("haystack_value_set_list_entry_at", &[V, US, V]),
+    ("haystack_value_remove_list_entry_at", &[V, US]),
+    ("haystack_value_get_dict_len", &[V]),
+    ("haystack_value_get_dict_keys", &[V, V]),
+    ("haystack_value_insert_dict_entry", &[V, C, V]),
+    ("haystack_value_get_dict_entry", &[V, C, O]),
+    ("haystack_value_remove_dict_entry", &[V, C]),
+    ("haystack_value_get_grid_len", &[V]),
+    ("haystack_value_make_grid_from_rows", &[V]),
+    ("haystack_value_make_grid_from_rows_with_meta", &[V, V]),
+    ("haystack_value_get_grid_row_at", &[V, US, V]),
+    ("haystack_value_to_zinc_string", &[V]),
+    ("haystack_value_from_zinc_string", &[C]),
+    ("haystack_value_to_json_string", &[V]),
+    ("haystack_value_from_json_string", &[C]),
+    ("haystack_filter_parse", &[C]),
+    ("haystack_filter_destroy", &[F]),
+    ("haystack_filter_match_dict", &[F, V]),
+    ("haystack_filter_first_match_in_grid", &[F, V, V]),
+    ("haystack_filter_match_all_grid", &[F, V, V]),
+    ("haystack_string_destroy", &[SP]),
+    ("last_error_message", &[]),
+];
+
+pub fn is_ptr(t: T) -> bool {
+    matches!(t, V | F | SP | C | O)
+}
+
+pub fn fidx(name: &str) -> Option<usize> {
+    FUNCS.iter().position(|(n, _)| *n == name)
+}
+
+#[derive(Clone, Debug, PartialEq)]
+pub enum CS {
+    Null,
+    Bad,
+    Ok(String),
+}
+
+#[derive(Clone, Debug, PartialEq)]
+pub enum A {
+    V(Option<usize>),
+    F(Option<usize>),
+    SP(Option<usize>),
+    C(CS),
+    O(bool),
+    B(bool),
+    N(u64),
+    I(i64),
+    X(f64),
+}
+
+#[derive(Clone, Debug)]
+pub struct Call {
+    pub f: usize,
+    pub args: Vec<A>,
+}
+
+impl Call {
+    pub fn new(name: &str, args: Vec<A>) -> Call {
+        Call { f: fidx(name).unwrap_or_else(|| panic!("unknown function {name}")), args }
+    }
+    pub fn name(&self) -> &'static str {
+        FUNCS[self.f].0
+    }
+    pub fn show(&self) -> String {
+        let mut s = String::from(self.name());
+        for a in &self.args {
+            s.push(' ');
+            s.push_str(&show_arg(a));
+        }
+        s
+    }
+    fn v(&self, i: usize) -> Option<usize> {
+        match &self.args[i] {
+            A::V(p) | A::F(p) | A::SP(p) => *p,
+            _ => None,
+        }
+    }
+    fn c(&self, i: usize) -> &CS {
+        match &self.args[i] {
+            A::C(c) => c,
+            _ => &CS::Null,
+        }
+    }
+    fn b(&self, i: usize) -> bool {
+        matches!(&self.args[i], A::B(true) | A::O(true))
+    }
+    fn n(&self, i: usize) -> u64 {
+        match &self.args[i] {
+            A::N(n) => *n,
+            _ => 0,
+        }
+    }
+    fn i(&self, i: usize) -> i64 {
+        match &self.args[i] {
+            A::I(n) => *n,
+            _ => 0,
+        }
+    }
+    fn x(&self, i: usize) -> f64 {
+        match &self.args[i] {
+            A::X(x) => *x,
+            _ => 0.0,
+        }
+    }
+}
+
+fn opt_tok(prefix: char, p: &Option<usize>) -> String {
+    match p {
+        None => format!("{prefix}-"),
+        Some(k) => format!("{prefix}{k}"),
+    }
+}
+
+pub fn show_arg(a: &A) -> String {
+    match a {
+        A::V(p) => opt_tok('@', p),
+        A::F(p) => opt_tok('%', p),
+        A::SP(p) => opt_tok('$', p),
+        A::C(CS::Null) => "~".into(),
+        A::C(CS::Bad) => "!".into(),
+        A::C(CS::Ok(s)) => vx::h(s),
+        A::O(b) | A::B(b) => if *b { "1".into() } else { "0".into() },
+        A::N(n) => n.to_string(),
+        A::I(n) => n.to_string(),
+        A::X(x) => vx::flt(*x),
+    }
+}
+
+fn parse_opt(tok: &str, prefix: char) -> Option<Option<usize>> {
+    let rest = tok.strip_prefix(prefix)?;
+    if rest == "-" {
+        Some(None)
+    } else {
+        Some(Some(rest.parse().ok()?))
+    }
+}
+
+pub fn parse_history(input: &str) -> Option<Vec<Call>> {
+    let mut rd = vx::Rd::new(input);
+    let mut calls = Vec::new();
+    while !rd.done() {
+        let name = rd.tok()?;
+        let f = fidx(name)?;
+        let mut args = Vec::new();
+        for t in FUNCS[f].1 {
+            args.push(match t {
+                V => A::V(parse_opt(rd.tok()?, '@')?),
+                F => A::F(parse_opt(rd.tok()?, '%')?),
+                SP => A::SP(parse_opt(rd.tok()?, '$')?),
+                C => {
+                    let t = rd.tok()?;
+                    A::C(match t {
+                        "~" => CS::Null,
+                        "!" => CS::Bad,
+                        _ => {
+                            let s = vx::unh(t)?;
+                            if s.contains('\0') {
+                                return None;
+                            }
+                            CS::Ok(s)
+                        }
+                    })
+                }
+                O => A::O(rd.tok()? == "1"),
+                B => A::B(rd.tok()? == "1"),
+                U32 | US => A::N(rd.num()?),
+                I32 => A::I(rd.num()?),
+                X => A::X(rd.flt()?),
+            });
+        }
+        calls.push(Call { f, args });
+    }
+    Some(calls)
+}
+
+pub fn show_history(calls: &[Call]) -> String {
+    calls.iter().map(|c| c.show()).collect::<Vec<_>>().join(" ")
+}
+
+// ------------------------------------------------------------------------------------------------
+// canonical result texts (shared by the C side, the reference and the Lean driver)
+// ------------------------------------------------------------------------------------------------
+const NULLP: &str = "~";
+const R_ERR: &str = "r-1";
+const USIZE_MAX: &str = "n18446744073709551615";
+const U32_MAX: &str = "n4294967295";
+
+fn nan_text() -> String {
+    format!("x{:016x}:{}", f64::NAN.to_bits(), vx::h("NaN"))
+}
+fn f64_text(x: f64) -> String {
+    format!("x{:016x}:{}", x.to_bits(), vx::h(&format!("{x}")))
+}
+fn res_text(r: ResultType) -> &'static str {
+    match r {
+        ResultType::TRUE => "r1",
+        ResultType::FALSE => "r0",
+        ResultType::ERR => R_ERR,
+    }
+}
+fn bool_text(b: bool) -> &'static str {
+    if b {
+        "b1"
+    } else {
+        "b0"
+    }
+}
+
+include!("c17_ref.rs");
+include!("c17_c.rs");
+include!("c17_gen.rs");
